@@ -232,6 +232,10 @@ def run(tier, seed, rep):
         for start in (0xFFFB, 0xFFFC, 0xFFFD, 0xFFFE):      # (states the counter can really be in)
             cfg = dict(transport='tcp', ka=ka, T=1, R=2, cmd='read', tx_start=start)
             jobs.append((cfg, 'deviations', 2, alphabet('tcp'), ['ok'], None))
+    # timeouts longer than the 5 s allowed for establishing a TCP connection (the two bounds are separate)
+    for ka in (False, True):
+        for (T, R) in ((8, 1), (6.5, 0)) + (((30, 2),) if tier == 'thorough' else ()):
+            jobs.append((dict(transport='tcp', ka=ka, T=T, R=R, cmd='read'), 'deviations', 2, alphabet('tcp'), CONNECT, None))
     # R=3 with deviation bound
     for tr in ('udp', 'tcp'):
         for ka in (False, True):
